@@ -308,6 +308,9 @@ v6_int = st.one_of(
     st.builds(lambda v: (0xFFFF << 32) | v, u32),
     st.builds(lambda v: v, u32),
     st.builds(lambda lo: (0xFE80 << 112) | lo, st.integers(0, (1 << 64) - 1)),
+    # network addresses (low 16..96 bits zero: '2001:db8:1::'), and addresses with exactly one zero group
+    st.builds(lambda v, k: (v >> k) << k, u128, st.sampled_from([16, 32, 32, 48, 64, 80, 96])),
+    st.builds(lambda v, i: (v | (0x0001000100010001000100010001 << 0) | (1 << 112)) & ~(0xFFFF << (16 * i)), u128, st.sampled_from([0, 7, 7, 0, 3])),
     st.lists(st.sampled_from([0, 0, 1, 0xFFFF, 0xA, 0x2001, 0xDB8]), min_size=8, max_size=8).map(
         lambda gs: sum(x << (16 * (7 - i)) for i, x in enumerate(gs))
     ),
